@@ -10,6 +10,7 @@
      Begin   o op ks ttl             invocation of a call that runs interleaved            -> TBegin
      Step    o cmd                   one Redis command of o's call was executed            -> TStep
      Return  o ok other              the interleaved call returned                         -> Return
+     End     id                      end of the trace                                      -> TraceEnd
    In "silent" traces (concurrent goroutines on the in-memory cache, whose table accesses cannot be observed)
    the steps of pending calls are taken without consuming a line.  *)
 EXTENDS L2Lock
@@ -26,20 +27,27 @@ Ev == Trace[l]
 
 Blank == /\ variant = "unset" /\ cap = Inf /\ tab = [k \in Keys |-> Empty]
          /\ flag = [o \in Owners |-> [k \in Keys |-> FALSE]] /\ call = [o \in Owners |-> Idle]
-         /\ grant = [o \in Owners |-> NoGx] /\ tainted = FALSE /\ hist = <<>> /\ silent = FALSE
+         /\ grant = [o \in Owners |-> NoGx] /\ taints = {} /\ hist = <<>> /\ silent = FALSE
 
 TraceInit == l = 1 /\ TLCSet(1, 1) /\ Blank
 
-TraceReset == /\ IsEv("Reset")
-              /\ variant' = "unset" /\ cap' = Inf /\ tab' = [k \in Keys |-> Empty]
-              /\ flag' = [o \in Owners |-> [k \in Keys |-> FALSE]] /\ call' = [o \in Owners |-> Idle]
-              /\ grant' = [o \in Owners |-> NoGx] /\ tainted' = FALSE /\ hist' = <<>> /\ silent' = FALSE
+Configured == variant \in {"mem", "redis"}
+
+ToBlank == /\ variant' = "unset" /\ cap' = Inf /\ tab' = [k \in Keys |-> Empty]
+           /\ flag' = [o \in Owners |-> [k \in Keys |-> FALSE]] /\ call' = [o \in Owners |-> Idle]
+           /\ grant' = [o \in Owners |-> NoGx] /\ taints' = {} /\ hist' = <<>> /\ silent' = FALSE
+
+TraceReset == IsEv("Reset") /\ ToBlank
+
+\* end of a trace: report which finding actions this way of explaining the trace needed (the check takes, per
+\* trace, the explanations with the fewest: none = the trace conforms to the repaired model), then forget
+TraceEnd == /\ IsEv("End") /\ Configured /\ \A o \in Owners : call[o].ph = "idle"
+            /\ PrintT(<<"END", Ev.id, taints>>)
+            /\ ToBlank
 
 TraceSetup == /\ IsEv("Setup") /\ variant = "unset"
               /\ variant' = Ev.variant /\ cap' = Ev.cap /\ silent' = Ev.silent
-              /\ UNCHANGED <<tab, flag, call, grant, tainted, hist>>
-
-Configured == variant \in {"mem", "redis"}
+              /\ UNCHANGED <<tab, flag, call, grant, taints, hist>>
 
 TraceCall == /\ IsEv("Call") /\ Configured
              /\ ACall(Ev.o, Ev.op, Ev.ks, Ev.ttl, Ev.ok, Ev.other)
@@ -61,7 +69,7 @@ TraceReturn == /\ IsEv("Return") /\ Configured
 TraceSilent == /\ silent /\ l <= Len(Trace) /\ UNCHANGED <<l, silent>>
                /\ \E o \in Owners : TStep(o)
 
-TraceNext == TraceReset \/ TraceSetup \/ TraceCall \/ TraceTick \/ TraceBegin \/ TraceStep \/ TraceReturn \/ TraceSilent
+TraceNext == TraceReset \/ TraceEnd \/ TraceSetup \/ TraceCall \/ TraceTick \/ TraceBegin \/ TraceStep \/ TraceReturn \/ TraceSilent
 
 TraceSpec == TraceInit /\ [][TraceNext]_tvars
 
